@@ -87,7 +87,7 @@ def render(kinds, d=0, ctx=None):
         body += child(inner, True)
         body.append(f'return loc{s}')
         lines = [f'@dec{s}(darg{s})',
-                 f'{head} f{s}(po{s}, /, p{s}: pa{s}, q{s}=dq{s}, *a{s}: va{s}, k{s}: ka{s} = dk{s}, **kw{s}: kwa{s}) -> rt{s}:'] + indent(body)
+                 f'{head} f{s}(po{s}, /, p{s}: pa{s}, q{s}=dq{s}, *a{s}: va{s}, kn{s}: kna{s}, k{s}: ka{s} = dk{s}, **kw{s}: kwa{s}) -> rt{s}:'] + indent(body)
         return 'stmt', lines
     if k == 'class':
         inner = {'fn': ctx['fn'], 'cls_nearest': True}
